@@ -308,8 +308,9 @@ theorem binv_batchBase {s : State α} (hI : Inv s) (hb : BInv s) (pts : List (α
   obtain ⟨e1, e2⟩ := sorted_head_last hsorted (hends s.lo (Or.inl rfl)) (hends s.hi (Or.inr rfl))
     hall 0
   have eb : (batchBase s pts).bboxX = (s.lo, s.hi) := by
-    show ((batchBase s pts).xsC.headD 0, (batchBase s pts).xsC.getLastD 0) = _
-    rw [e1, e2]
+    show ((if s.lo < (batchBase s pts).xsC.headD 0 then s.lo else (batchBase s pts).xsC.headD 0),
+      (if (batchBase s pts).xsC.getLastD 0 < s.hi then s.hi else (batchBase s pts).xsC.getLastD 0)) = _
+    rw [e1, e2, if_neg (lt_irrefl _), if_neg (lt_irrefl _)]
   have es : (batchBase s pts).scaleX = s.hi - s.lo := by
     show (batchBase s pts).bboxX.2 - (batchBase s pts).bboxX.1 = _
     rw [eb]
@@ -448,16 +449,15 @@ theorem ask_length_run {lo hi : α} (hlt : lo < hi) (factor dxEps : α) (nn : Na
     ((askPoints r12 (run lossFn r12 (init lo hi factor dxEps nn) ops) n).1).length = n :=
   (ask_props_run lossFn r12 hlt factor dxEps nn ops hv n).2.2.1
 
-/-! ## why `ValidOp` restricts the batch path of `tell_many`
+/-! ## the batch path of `tell_many` and the input scale
 
-Without "both end points are known, pending or told in the batch" the batch path re-derives the
-input scale from the points it has: on `[0, 1]`, a batch of three interior points gives
-`bboxX = (1/4, 3/4)` and `scaleX = lossScale = 1/2`, not the domain width.  (The loop path of
-`tell_many`, i.e. repeated `tell`, keeps the domain width.) -/
+Since the repair `fix: Learner1D.tell_many batch path shrank the x-scale` the batch path keeps the
+domain inside the x bounding box, like `tell`: on `[0, 1]` a batch of three interior points leaves
+`bboxX = (0, 1)` and `scaleX = lossScale = 1`.  (Before the repair it gave `(1/4, 3/4)` and `1/2`.) -/
 example :
     let s := step (fun _ _ => Loss.fin 0) (id : Rat → Rat) (init (0 : Rat) 1 2 0 0)
       (.tellMany [(1/4, [0]), (1/2, [0]), (3/4, [0])] false)
-    s.bboxX = (1/4, 3/4) ∧ s.scaleX = 1/2 ∧ s.lossScale = 1/2 := by decide +kernel
+    s.bboxX = (0, 1) ∧ s.scaleX = 1 ∧ s.lossScale = 1 := by decide +kernel
 
 example :
     let s := step (fun _ _ => Loss.fin 0) (id : Rat → Rat) (init (0 : Rat) 1 2 0 0)
